@@ -5,9 +5,11 @@ CONSTANTS
   ColumnMemo = "none"
   ParserScope = "per call"
   ScanMemo = "none"
+  OperandScope = "per call"
+  SubqueryColumns = "per table object"
   JobSet = "fixed"
 INIT InitFixed
 NEXT Next
-INVARIANTS TypeOK SerialInv OwnParameters OwnRow OwnStatement
+INVARIANTS TypeOK SerialInv OwnParameters OwnRow OwnStatement OwnOperands OwnNames
 PROPERTIES NonInterference NoSharedState JobConstant
 CHECK_DEADLOCK FALSE
